@@ -1,0 +1,8 @@
+//go:build verif
+
+package config
+
+// VerifInfoFromURL exposes getInfoFromURL to the /verif harness.
+func VerifInfoFromURL(svcURL string) (policyKeys []string, domain string, err error) {
+	return getInfoFromURL(svcURL)
+}
